@@ -478,7 +478,8 @@ def run(ctx):
         libs = smallgen.sample(xlib.library(lang=lang, for_fortran=True), ctx.seed + len(jobs), n)
         for lib in libs:
             for options in (None, {"F_CFI": True}):
-                jobs.append((len(jobs), lib, options))
+                # (std::vector with F_CFI: recorded finding of C05, excluded by construction)
+                jobs.append((len(jobs), xlib.without_vectors(lib)[0] if options else lib, options))
     results = core.pool_map(_gen_job, jobs)
     names = sorted(set(upstream.target_lists()["fortran"]))
     if quick:
